@@ -44,6 +44,11 @@
 (*                     scope;  vskip  the value carries skip="1"           *)
 (*   G.idx     [id, kind (closure|destroy|length), idx, n, marked]         *)
 (*   G.pairs   [kind, scope, name, attr, value]  name-valued references    *)
+(*   G.inferred  the accessor attributes (setter, getter, set-property,    *)
+(*             get-property) of this GIR are known to be inferred by the   *)
+(*             scanner: the input carried no such annotation (TRUE for     *)
+(*             the inputs the harness generates, FALSE for repository      *)
+(*             files, where one cannot tell)                               *)
 (*                                                                         *)
 (* Readings fixed here (where the statement is silent the clause is too):  *)
 (*  - "not marked": neither the element nor an enclosing element carries   *)
@@ -58,6 +63,11 @@
 (*    none was given, so there a gpointer element of a list/array counts   *)
 (*    as "not stated" (giscanner/introspectablepass.py demotes exactly     *)
 (*    this); fields, properties and alias targets only need the child.     *)
+(*  - "an inferred property setter or getter and the method's set-property *)
+(*    or get-property agree" is read in both directions (the sentence      *)
+(*    starts "mutually consistent"): AccessorAgree from the property to    *)
+(*    the method it names, AccessorMutual from a method to the property it *)
+(*    names; the latter only where the attributes are known to be inferred.*)
 (*  - references into namespaces that are not available, or into partial   *)
 (*    ones that lack the name, are counted as skipped.                     *)
 (***************************************************************************)
@@ -150,12 +160,14 @@ HasFn(PS, scope, name) ==      \* a function-like element `name` directly inside
 HasMethod(PS, scope, name) == P("fn", scope, name, "method", "") \in PS
 AttrOf(PS, kind, scope, name, attr) == {p.value : p \in {x \in PS : x.kind = kind /\ x.scope = scope /\ x.name = name /\ x.attr = attr}}
 
-PairClauseNames == {"ShadowsMutual", "TypeStructMutual", "AccessorAgree", "InvokerIsMethod"}
+PairClauseNames == {"ShadowsMutual", "TypeStructMutual", "AccessorAgree", "AccessorMutual", "InvokerIsMethod"}
 
-PairAnte(p, c) ==
+PairAnte(G, PS, p, c) ==
     CASE c = "ShadowsMutual"    -> p.kind = "fn" /\ p.attr \in {"shadows", "shadowed-by"}
       [] c = "TypeStructMutual" -> p.kind = "typestruct"
       [] c = "AccessorAgree"    -> p.kind = "prop" /\ p.attr \in {"setter", "getter"}
+      [] c = "AccessorMutual"   -> G.inferred /\ p.kind = "fn" /\ p.attr \in {"set-property", "get-property"}
+                                     /\ P("prop", p.scope, p.value, "property", "") \in PS
       [] c = "InvokerIsMethod"  -> p.kind = "vfunc" /\ p.attr = "invoker"
 
 PairCons(PS, p, c) ==
@@ -168,23 +180,25 @@ PairCons(PS, p, c) ==
     \* (a setter naming no method of the type comes from an explicit annotation / a parent type: silent)
       [] c = "AccessorAgree"    -> HasMethod(PS, p.scope, p.value) =>
                                      AttrOf(PS, "fn", p.scope, p.value, IF p.attr = "setter" THEN "set-property" ELSE "get-property") = {p.name}
+    \* method m says (inferred) set-property p and the type has a property p  =>  p says setter m
+      [] c = "AccessorMutual"   -> AttrOf(PS, "prop", p.scope, p.value, IF p.attr = "set-property" THEN "setter" ELSE "getter") = {p.name}
       [] c = "InvokerIsMethod"  -> HasMethod(PS, p.scope, p.value)
 
-PairHolds(PS, p, c) == PairAnte(p, c) => PairCons(PS, p, c)
+PairHolds(G, PS, p, c) == PairAnte(G, PS, p, c) => PairCons(PS, p, c)
 
 ---------------------------------------------------------------------------
 \* all rejections of one abstract GIR: <<clause, shape, element>>
 UseRejections(G, u) ==
     IF u.marked THEN {}       \* every use clause speaks about unmarked owners only
     ELSE {<<c, Shape(G, u, c), u.id>> : c \in {x \in UseClauseNames : ~UseHolds(G, u, x)}}
-PairRejections(PS, p) ==
-    {<<c, p.attr \o "-not-mutual", p.scope \o "/" \o p.name>> : c \in {x \in PairClauseNames : ~PairHolds(PS, p, x)}}
+PairRejections(G, PS, p) ==
+    {<<c, p.attr \o "-not-mutual", p.scope \o "/" \o p.name>> : c \in {x \in PairClauseNames : ~PairHolds(G, PS, p, x)}}
 Rejections(G) ==
     LET PS == Rng(G.pairs) IN
     UNION {UseRejections(G, G.uses[i]) : i \in DOMAIN G.uses}
     \cup {<<"IndexInRange", G.idx[i].kind \o "-index-out-of-range", G.idx[i].id>> :
         i \in {j \in DOMAIN G.idx : ~IndexInRange(G.idx[j])}}
-    \cup UNION {PairRejections(PS, G.pairs[i]) : i \in DOMAIN G.pairs}
+    \cup UNION {PairRejections(G, PS, G.pairs[i]) : i \in DOMAIN G.pairs}
 
 Closed(G) == Rejections(G) = {}
 
@@ -192,7 +206,7 @@ AllClauseNames == UseClauseNames \cup PairClauseNames \cup {"IndexInRange", "Not
 \* how often each clause spoke (vacuity), plus the number of references that were skipped
 ExercisedCount(G, c) ==
     IF c \in UseClauseNames THEN Cardinality({i \in DOMAIN G.uses : Ante(G, G.uses[i], c)})
-    ELSE IF c \in PairClauseNames THEN Cardinality({i \in DOMAIN G.pairs : PairAnte(G.pairs[i], c)})
+    ELSE IF c \in PairClauseNames THEN Cardinality({i \in DOMAIN G.pairs : PairAnte(G, Rng(G.pairs), G.pairs[i], c)})
     ELSE IF c = "IndexInRange" THEN Len(G.idx)
     ELSE IF c = "NotJudged" THEN Cardinality({i \in DOMAIN G.uses : ~G.uses[i].marked /\ G.uses[i].tag = "type" /\ G.uses[i].name # ""
                                                 /\ ~IsFund(G.uses[i]) /\ ~Known(G, G.uses[i]) /\ NotJudged(G, G.uses[i])})
